@@ -414,7 +414,11 @@ def check_connectivity(chk) -> None:
         else:
             chk.error("connect-order", cr.site(lam), f"sort key `{norm(body)}` not understood")
     seg = [s for s in ast.walk(cr.node) if isinstance(s, ast.If) and norm(s.test) == "prev_residue.is_connected(residue)"]
-    chk.expect(len(seg) == 1, "connect-order", cr.where, "consecutive residues are linked iff prev.is_connected(next)", "segments are not built from prev_residue.is_connected(residue)", K(cr, "link"))
+    if len(seg) == 1:
+        chk.ok("connect-order", cr.where, "consecutive residues are linked iff prev.is_connected(next)")
+    else:
+        # neither evaluable nor in the pinned form: this reading cannot tell how the segments are built
+        chk.error("connect-order", cr.where, "how the segments are cut (`prev_residue.is_connected(residue)` in the pinned form) could not be read, and connected_residues was not evaluable")
 
 
 def check_chi(chk) -> None:
